@@ -80,6 +80,32 @@ func declMatrix() []declCase {
 	add("entity readme", "entity Foo {\n  | Foo is lorem ipsum\n\n  key fooId key:id62 {\n    primary = true\n  }\n\n  data name string\n\n  status ACTIVE\n  status INACTIVE\n\n  event Create {\n    field name string\n  }\n\n  event Archive {\n  }\n}\n")
 	add("entity tenant and summary", "entity Foo {\n  key fooId key:id62 {\n    primary = true\n  }\n  key accountId key:id62 {\n    primary = false\n    tenant = \"account\"\n  }\n  data name string\n  status ACTIVE\n  event Create {\n    field name string\n  }\n  summary {\n    field name string\n  }\n}\n")
 	add("entity query listRequest", "entity Foo {\n  key fooId key:id62 {\n    primary = true\n  }\n  data name string\n  status ACTIVE\n  event Create {\n    field name string\n  }\n  query.listRequest.defaultSort = [\"name\"]\n}\n")
+	// services / topics whose generated sub-package file imports the main file of the same source (request, response and
+	// message fields referring to an object, a oneof and an enum declared next to the service): several output files
+	// that depend on each other, through CompilePackage, LintFile and LintAll
+	add("service referring to types of its own file", "object Bar {\n  field x string\n}\n\noneof Choice {\n  option a object {\n    field y string\n  }\n}\n\nenum Kind {\n  option A\n  option B\n}\n\nservice Foo {\n  basePath = \"/foo/v1\"\n  method GetBar {\n    httpMethod = \"POST\"\n    httpPath = \"/bar\"\n    request {\n      field kind enum:Kind {\n        rules.in = [\"B\"]\n      }\n      field choice oneof:Choice\n    }\n    response {\n      field bar object:Bar\n      field bars array:object:Bar\n    }\n  }\n}\n")
+	add("topic referring to types of its own file", "object Bar {\n  field x string\n}\n\nenum Kind {\n  option A\n}\n\ntopic Foo publish {\n  message PostFoo {\n    field bar object:Bar\n    field kind enum:Kind\n  }\n}\n\ntopic Baz reqres {\n  request {\n    field bar object:Bar\n  }\n  reply {\n    field kind enum:Kind\n  }\n}\n")
+	add("entity and service in one file", "entity Foo {\n  key fooId key:id62 {\n    primary = true\n  }\n  data name string\n  status ACTIVE\n  event Create {\n    field name string\n  }\n}\n\nservice FooExtra {\n  basePath = \"/foo/v1/extra\"\n  method GetFooState {\n    httpMethod = \"GET\"\n    httpPath = \"/state/:fooId\"\n    request {\n      field fooId key:id62\n    }\n    response {\n      field state object:FooState\n      field keys object:FooKeys\n    }\n  }\n}\n")
+	// an inline type named like the message that holds it (field `foo` of `object Foo` -> Foo.Foo): j5convert writes
+	// inline type names relative to the package, the link step resolves relative names from the innermost scope
+	// (qualifyTypeNames, at both the compile and the lint call site), in main and in generated sub-package files
+	add("inline object named like its root object", "object Foo {\n  field foo object {\n    field x string\n  }\n}\n")
+	add("inline types next to one named like the root", "object Foo {\n  field foo object {\n    field x string\n    field foo object {\n      field y string\n    }\n  }\n  field bar object {\n    field y string\n  }\n  field kind enum {\n    option A\n  }\n  field m map:string\n  field ms map:object {\n    field z string\n  }\n  field bars array:object {\n    field w string\n  }\n}\n")
+	add("inline enum named like its root object", "object Foo {\n  field foo enum {\n    option A\n    option B\n  }\n  field other object {\n    field x string\n  }\n}\n")
+	add("inline object named like its root oneof", "oneof Foo {\n  option foo object {\n    field x string\n  }\n  option bar object {\n    field y string\n  }\n}\n")
+	add("inline object named like the request message", "service Foo {\n  basePath = \"/foo/v1\"\n  method GetFoo {\n    httpMethod = \"POST\"\n    httpPath = \"/foo\"\n    request {\n      field getFooRequest object {\n        field x string\n      }\n      field other object {\n        field y string\n      }\n    }\n    response {\n      field getFooResponse object {\n        field z string\n      }\n      field m map:string\n    }\n  }\n}\n")
+	add("inline object named like the topic message", "topic Foo publish {\n  message PostFoo {\n    field postFoo object {\n      field x string\n    }\n    field other object {\n      field y string\n    }\n  }\n}\n")
+	add("entity event field named like the event", "entity Foo {\n  key fooId key:id62 {\n    primary = true\n  }\n  data fooData object {\n    field x string\n  }\n  status ACTIVE\n  event Create {\n    field create object {\n      field name string\n    }\n  }\n}\n")
+	// integer rule values that need more than 32 bits (schema.proto IntegerField.Rules minimum / maximum / multiple_of are
+	// int64): literals at and beyond 2^31 and 2^32, up to the largest int64, for every format they are in range for
+	add("integer INT64 rules beyond 32 bits", "object Foo {\n  field a integer:INT64 {\n    rules.minimum = 2147483648\n    rules.maximum = 5000000000\n  }\n  field b integer:INT64 {\n    rules.minimum = 1000000000000\n    rules.maximum = 9223372036854775807\n  }\n  field c integer:INT64 {\n    rules.maximum = 4294967296\n    rules.exclusiveMaximum = true\n  }\n}\n")
+	add("integer UINT32 and UINT64 rules beyond 31 bits", "object Foo {\n  field a integer:UINT32 {\n    rules.minimum = 2147483648\n    rules.maximum = 4294967295\n  }\n  field b integer:UINT64 {\n    rules.minimum = 4294967296\n    rules.maximum = 9223372036854775807\n  }\n}\n")
+	add("integer INT32 rules at the 32 bit limit", "object Foo {\n  field a integer:INT32 {\n    rules.minimum = 0\n    rules.maximum = 2147483647\n  }\n}\n")
+	// schema.proto IntegerField.Rules.multiple_of: since /repo c0895b5 a compile error "multipleOf is not implemented" (it was
+	// silently dropped before): a rule of the schema language that is not accepted, with a signature of its own
+	add("integer rules multipleOf", "object Foo {\n  field a integer:INT32 {\n    rules.multipleOf = 5\n  }\n}\n")
+	add("integer INT64 rules beyond 32 bits in array and map items", "object Foo {\n  field a array:integer:INT64 {\n    items.integer.rules.maximum = 5000000000\n  }\n  field m map:integer:INT64 {\n    itemSchema.integer.rules.minimum = 5000000000\n  }\n}\n")
+	add("unsigned 64 bit schema fields beyond 32 bits", "object Foo {\n  field s string {\n    rules.minLength = 1\n    rules.maxLength = 5000000000\n  }\n  field xs array:string {\n    rules.maxItems = 4294967296\n  }\n}\n")
 	add("entity nested schemas", "entity Foo {\n  key fooId key:id62 {\n    primary = true\n  }\n  data kind enum:Kind\n  data part object:Part\n  status ACTIVE\n  event Create {\n    field part object:Part\n  }\n  enum Kind {\n    option A\n  }\n  object Part {\n    field x string\n  }\n}\n")
 	// imports
 	out = append(out, declCase{Name: "import package", Pkg: "foo.v1", Main: mainFile, Files: map[string]string{
